@@ -95,7 +95,7 @@ def strat(draw, tier="quick"):
     sc = spec.get("sigma", 1.0)
     src = st.one_of(
         S.source(n, "x", "data", "y" if t == "xy" else None, sc),
-        S.source(n, "x", "model", "y" if t == "xy" else None, sc, allow_relative=(t != "hist")) if t != "hist" else S.source(n, "x", "data", None, sc),
+        S.source(n, "x", "model", "y" if t == "xy" else None, sc, allow_relative=(t != "hist")),  # histogram fits: absolute model-referenced sources only
         S.source(n, "x", "data", "x", 0.05) if t == "xy" else S.source(n, "x", "data", None, sc),
     )
     ref = st.integers(0, 6)
@@ -225,6 +225,12 @@ def run(case):
     def compare(obs, where):
         nonlocal nontrivial, skipped_pd
         if obs in MINIMISATION_OBS and not cfg.fitted:
+            return
+        if obs in MINIMISATION_OBS and cfg.spec["type"] == "xy" and not any(s_.get("enabled", True) and (s_.get("axis") or "y") == "y" for s_ in cfg.spec["sources"]) \
+                and any(s_.get("enabled", True) for s_ in cfg.spec["sources"]):
+            # only x uncertainties: the covariance is slope^2 * V_x, which vanishes wherever the model is flat - the cost surface has several minima and which one
+            # a minimiser reaches depends on where it starts (observed: 455.5 vs 842.0).  Not a well-posed problem; minimisation results are not compared
+            labels.add("minimisation_results_not_compared_x_errors_only")
             return
         if obs == "error_band()":
             with guard("read:parameter_errors"):
@@ -473,6 +479,14 @@ def _min_equal(obs, h, f, H, F, truth=None):
     if h.shape != f.shape:
         return False
     e = np.asarray(F.parameter_errors, float)
+    try:
+        # the scale of a covariance entry is the covariance matrix itself (with iminuit, parameter_errors are MIGRAD's running estimates and can be far from
+        # sqrt(diag) of the HESSE matrix - KF-C03-1 / KF-C15-3 - which made a 2e-5 relative difference look like a violation)
+        dC = np.sqrt(np.clip(np.diag(np.asarray(F.parameter_cov_mat, float)), 0, None))
+        if obs != "parameter_errors" and dC.shape == e.shape:
+            e = np.where(np.isfinite(dC) & (dC > 0), dC, e)
+    except Exception:  # noqa
+        pass
     e = np.where(np.isfinite(e) & (e > 0), e, 1.0)
     # width parameters of the peak families / the normal density enter only through their square: fits may end at +s or -s, which mirrors the
     # corresponding rows and columns of the covariance / correlation matrix
